@@ -451,3 +451,30 @@ def c20(tier, seed):
                   "structure and every condition's tokens with the criteria tree. distinct = distinct trees; non-trivial = has a connective",
                   assumptions=["string literals are read the MySQL-default way (backslash escapes); whether \\\\xNN escapes of control "
                                "characters decode back to the operand is reported as a diagnostic, not a verdict"])
+
+
+# ---------------------------------------------------------------------------- C19 debug evaluation
+C19_PUB = {"pubpanic", "pubsame", "pubreport"}
+
+
+@prop("C19", "debug", "Trace_Debug", None)
+def c19(tier, seed):
+    run = Run("C19", tier, seed)
+    thorough = tier == "thorough"
+    base = 0
+    for mode in (("dbg", "dbg2", "lazy") if not thorough else ("dbg", "dbg2", "lazy", "objs", "partial")):
+        cases, n = run.generate("Gen_Eval", "Gen_Eval.cfg", mode=mode, size=(2 if thorough and mode == "dbg2" else 1), idbase=base)
+        base += n
+        obs = run.replay("debug", cases=cases, name="debug_" + mode)
+        verdicts = run.validate("Trace_Debug", obs, shard=600, parallel=12, heap="3g")
+        run.triage("debug", "Trace_Debug", obs, verdicts, None, key=eval_key,
+                   nontrivial=lambda r: len(r.get("obs", {}).get("dbg", {}).get("entries", [])) >= 2)
+    run.bounds = dict(universes=["dbg: 36 built-in-only single-line programs (non-ASCII identifiers and strings, unevaluated lazy "
+                                 "branches, failing evaluations) through yae.Debug and closure.DebugCompile",
+                                 "lazy: tracer / poison universe through closure.DebugCompile with user lazy functions"])
+    return finish(run, "model_checking",
+                  "cases: programs of the universes rendered to one-line source; the specification lexes and parses the recorded source "
+                  "itself (its own columns), evaluates it in debug mode (DebugEval) and TLC compares the recorded entries (value, column) "
+                  "in recording order, the outcome against normal evaluation, and checks the report declaratively (first line the source, "
+                  "every record at its column under a bar). distinct = distinct programs; non-trivial = at least two recorded values",
+                  assumptions=["TLC's evaluation of the TLA+ operators is trusted"])
